@@ -3,10 +3,16 @@
 Three independent paths must leave the same bytes:
   A  ffi.new('X *', init)
   B  p = ffi.new('X *'); p[0] = init          (arrays: through a pointer-to-array)
-  C  leaf-by-leaf attribute/item assignment into Python-allocated zero memory
-     (bytearray + from_buffer), for initializers made of dicts and full lists.
+  C  the reference model: leaf-by-leaf attribute/item assignment (and raw byte
+     copies for bytes / str / cdata initializers) into Python-allocated zero
+     memory (bytearray + from_buffer).  Sequence initializers follow the order
+     the property states: fields in order, anonymous structs transparent, a
+     union offers its first member only.
 Under ASan malloc'ed memory is filled with 0xbe, so a missing zero-fill shows
-in A vs C.  Flexible arrays: allocation size and sizeof(p[0]).
+in A vs C.  Flexible arrays: allocation size and sizeof(p[0]), also through
+enclosing structs.  The other entry points that reach direct_newp (ctype
+object, C-level FFI.new, ffi.new_allocator() in its four configurations) must
+produce the same bytes / the same allocation size as ffi.new.
 """
 import sys, os
 from vlib import core, gen_types as G
@@ -16,9 +22,19 @@ RULE = ("case = (aggregate or array type from the C01 generator, random nested i
         "lists/tuples shorter than the field list, dicts, bytes for char arrays, cdata "
         "structs/arrays, nested mixes, union sequences, arrays of structs, flexible-array structs "
         "with item lists or a length, and invalid initializers (too many items, unknown key, wrong "
-        "type); distinct = (declaration, initializer repr); non-trivial = initializer has >= 2 "
-        "leaves or is nested")
-ASSUMPTIONS = ["path C only interprets dict initializers and array lists (list order across anonymous members is cffi-defined and only compared between A and B)",
+        "type); bytes for every 1-byte integer item type and _Bool, str (incl. astral characters "
+        "for char16_t) for wide-char arrays, cdata arrays for array fields, positional initializers "
+        "across anonymous members, pointer-to-primitive types, open-ended primitive arrays from "
+        "length / list / tuple / bytes / str / __index__ object, flexible members whose items are "
+        "structs / arrays / pointers, flexible structs initialized positionally, from bytes / str, "
+        "without the flexible key, nested in 1-2 enclosing structs (dict, positional, cdata inner), "
+        "overflowing / negative / non-integer lengths, and every case class again through the "
+        "alternative entry points (ctype object, C-level FFI.new, new_allocator default / "
+        "no-clear / custom alloc+free / custom no-clear); distinct = (declaration, initializer "
+        "repr); non-trivial = initializer has >= 2 leaves or is nested")
+ASSUMPTIONS = ["a sequence initializer for an aggregate whose (possibly anonymous, nested) union starts with an unnamed bitfield has no 'first member' the property could name: such cases are only compared between A and B (counter model_unmodelled)",
+               "when the reference model itself raises on a leaf value (a conversion outside C20) the case is only compared between A and B (counter model_raised)",
+               "with should_clear_after_alloc=False only the allocation size is judged, except when the custom alloc() hands out zeroed memory (then the bytes must equal ffi.new's)",
                "for flexible-array structs the assignment target is allocated with a length-only initializer of the same length first (assignment never resizes)"]
 
 
@@ -32,6 +48,9 @@ def generate(ctx):
     # the sanitizer report can be attributed to the mechanism)
     for k in range(3):
         cases.append({'seeds': [rng.getrandbits(48)], 'flex_overflow': True})
+    # a cdata struct as the initializer of a flexible-array struct (own case:
+    # one stable mechanism)
+    cases.append({'seeds': [rng.getrandbits(48)], 'flex_cdata': True})
     return None, cases
 
 
@@ -48,6 +67,28 @@ def san_mechanism(case, key, block):
 
 class Bad(Exception):
     pass
+
+
+class Unmodelled(Exception):
+    pass
+
+
+class IndexLen(object):
+    """a length given as an object with __index__"""
+    def __init__(self, n):
+        self.n = n
+
+    def __index__(self):
+        return self.n
+
+    def __repr__(self):
+        return 'IndexLen(%d)' % self.n
+
+
+BYTE_ITEMS = ('char', 'signed char', 'unsigned char', 'int8_t', 'uint8_t', '_Bool')
+WIDE = {'wchar_t': 'utf-32-le', 'char16_t': 'utf-16-le', 'char32_t': 'utf-32-le'}
+WIDE_CHARS = [65, 0x7a, 0xe9, 0x20ac, 0x1f600, 0x12345]
+LEAF_KINDS = ('prim', 'ptr', 'fnptr')
 
 
 def prim_value(ffi, rnd, name):
@@ -68,6 +109,36 @@ def prim_value(ffi, rnd, name):
     return rnd.choice([lo, hi, 1, rnd.randint(lo, hi)])
 
 
+def units(name, text):
+    """number of array items the str `text` occupies in an array of `name`"""
+    return len(text.encode(WIDE[name], 'surrogatepass')) // (2 if name == 'char16_t' else 4)
+
+
+def wide_text(rnd, name, maxunits):
+    out = ''
+    for _ in range(rnd.randint(0, maxunits)):
+        c = chr(rnd.choice(WIDE_CHARS))
+        if units(name, out + c) > maxunits:
+            break
+        out += c
+    return out
+
+
+def byte_text(rnd, name, m):
+    if name == '_Bool':
+        return bytes(rnd.randrange(0, 2) for _ in range(m))
+    return bytes(rnd.randrange(1, 256) for _ in range(m))
+
+
+def renderable(t):
+    """can the type be written as a C type name (no anonymous aggregate)"""
+    if t['k'] == 'anon':
+        return False
+    if t['k'] == 'array':
+        return t['n'] is not None and renderable(t['of'])
+    return True
+
+
 def make_init(ffi, rnd, t, aggs, depth=0, dictmode=False, stats=None):
     """random initializer for type descriptor t (see gen_types)"""
     k = t['k']
@@ -80,9 +151,19 @@ def make_init(ffi, rnd, t, aggs, depth=0, dictmode=False, stats=None):
     if k == 'array':
         n = t['n']
         of = t['of']
-        if of['k'] == 'prim' and of['name'] == 'char' and rnd.random() < 0.5 and not dictmode:
-            m = rnd.randint(0, n)
-            return bytes(rnd.randrange(1, 256) for _ in range(m))
+        r = rnd.random()
+        if of['k'] == 'prim' and of['name'] in BYTE_ITEMS and r < 0.5 and not dictmode:
+            # bytes: shorter than the array, or exactly as long (no terminator)
+            m = rnd.choice([n, rnd.randint(0, n)])
+            return byte_text(rnd, of['name'], m)
+        if of['k'] == 'prim' and of['name'] in WIDE and r < 0.5 and not dictmode:
+            return wide_text(rnd, of['name'], n)
+        if not dictmode and 0.5 <= r < 0.6 and renderable(t):
+            # a cdata array of exactly this type, with random bytes
+            src = ffi.new(G.render_type(t))
+            b = ffi.buffer(src)
+            b[:] = bytes(rnd.getrandbits(8) for _ in range(len(b)))
+            return src
         m = n if dictmode else rnd.randint(0, n)
         items = [make_init(ffi, rnd, of, aggs, depth + 1, dictmode) for _ in range(m)]
         return items if dictmode or rnd.random() < 0.7 else tuple(items)
@@ -103,8 +184,31 @@ def flat_fields(agg):
     return out
 
 
-def has_anon(agg):
-    return any(f['type']['k'] == 'anon' for f in agg['fields'])
+def ctor_fields(agg):
+    """The fields a sequence initializer fills, in order: the members in
+    declaration order, anonymous structs transparent, a union offering only
+    its first member (C brace-initializer order).  None when the property
+    does not say (a union whose first declared member is an unnamed
+    bitfield)."""
+    members = agg['fields']
+    if agg['kind'] == 'union':
+        members = members[:1]
+        if members and members[0]['type']['k'] != 'anon' and not members[0]['name']:
+            return None
+    out = []
+    for f in members:
+        if f['type']['k'] == 'anon':
+            sub = ctor_fields(f['type']['agg'])
+            if sub is None:
+                return None
+            out.extend(sub)
+        elif f['name']:
+            out.append(f)
+    return out
+
+
+def is_flexfield(f):
+    return f['type']['k'] == 'array' and f['type']['n'] is None
 
 
 def bit_value(rnd, f):
@@ -116,11 +220,17 @@ def bit_value(rnd, f):
     return rnd.choice([lo, hi, rnd.randint(lo, hi)])
 
 
-def make_agg_init(ffi, rnd, agg, aggs, depth, dictmode):
-    fields = [f for f in flat_fields(agg)
-              if not (f['type']['k'] == 'array' and f['type']['n'] is None)]
+def field_value(ffi, rnd, f, aggs, depth, dictmode):
+    if f['bits'] is not None:
+        return bit_value(rnd, f)
+    return make_init(ffi, rnd, f['type'], aggs, depth + 1, dictmode)
+
+
+def make_agg_init(ffi, rnd, agg, aggs, depth, dictmode, nocdata=False):
+    fields = [f for f in flat_fields(agg) if not is_flexfield(f)]
     r = rnd.random()
-    if not dictmode and r < 0.12 and agg.get('name'):
+    if not dictmode and not nocdata and r < 0.12 and agg.get('name') and not agg.get('flex') \
+            and not agg.get('varwrap'):
         # a cdata struct of the same type, with random bytes
         tag = '%s %s' % (agg['kind'], agg['name'])
         src = ffi.new(tag + ' *')
@@ -129,55 +239,143 @@ def make_agg_init(ffi, rnd, agg, aggs, depth, dictmode):
         return src[0]
 
     def val(f):
-        if f['bits'] is not None:
-            return bit_value(rnd, f)
-        return make_init(ffi, rnd, f['type'], aggs, depth + 1, dictmode)
-    if dictmode or r < 0.5 or agg['kind'] == 'union' and r < 0.8:
+        return field_value(ffi, rnd, f, aggs, depth, dictmode)
+    cf = ctor_fields(agg)
+    if cf is not None:
+        cf = [f for f in cf if not is_flexfield(f)]
+    if dictmode or r < 0.5 or cf is None or agg['kind'] == 'union' and r < 0.7:
         if agg['kind'] == 'union':
             pick = [rnd.choice(fields)] if fields else []
         else:
             pick = [f for f in fields if rnd.random() < 0.6]
         return {f['name']: val(f) for f in pick}
-    if agg['kind'] == 'union':
-        # a sequence sets the first member
-        first = [f for f in flat_fields(agg)][:1]
-        return [val(first[0])] if first and rnd.random() < 0.8 else []
-    if has_anon(agg):
-        # list order across anonymous unions is cffi-defined: compared A vs B only
-        k = rnd.randint(0, min(2, len(fields)))
-    else:
-        k = rnd.randint(0, len(fields))
-    vals = [val(f) for f in fields[:k]]
+    # positional: leading fields in constructor order (for a union: its first
+    # member, i.e. at most the fields of a leading anonymous struct)
+    k = rnd.randint(0, len(cf))
+    if agg['kind'] == 'union' and cf and rnd.random() < 0.8:
+        k = max(k, 1)
+    vals = [val(f) for f in cf[:k]]
     return vals if rnd.random() < 0.7 else tuple(vals)
 
 
-def leaf_assign(ffi, target, t, init, aggs):
-    """path C: write `init` (dicts / full lists / scalars) leaf by leaf"""
-    # target: cdata struct (reference) or array
-    if isinstance(init, dict):
-        for name, v in init.items():
-            ft = find_field_type(t, name, aggs)
-            if isinstance(v, (dict, list)) and ft is not None and ft['k'] in ('agg', 'anon', 'array'):
-                leaf_assign(ffi, getattr(target, name), ft, v, aggs)
-            else:
-                setattr(target, name, v)
-    elif isinstance(init, list):
-        of = t['of']
-        for i, v in enumerate(init):
-            if isinstance(v, (dict, list)) and of['k'] in ('agg', 'anon', 'array'):
-                leaf_assign(ffi, target[i], of, v, aggs)
-            else:
-                target[i] = v
-    else:
-        raise Bad('leaf_assign: unexpected %r' % (init,))
+# ---------------------------------------------------------------------------
+# path C: the reference model
+
+def raw(ffi, ptr, n):
+    return ffi.buffer(ffi.cast('char *', ptr), n)
 
 
-def find_field_type(t, name, aggs):
-    agg = aggs[t['name']] if t['k'] == 'agg' else t['agg']
+def field_by_name(agg, name):
     for f in flat_fields(agg):
         if f['name'] == name:
-            return None if f['bits'] is not None else f['type']
+            return f
     raise Bad('no field %s' % name)
+
+
+def model_fill(ffi, sub, t, init, aggs):
+    """write initializer `init` for the aggregate / array type t into `sub`, a
+    cdata reference into zeroed Python-owned memory"""
+    k = t['k']
+    if k == 'array':
+        return model_array(ffi, sub, t['of'], init, aggs, t['n'])
+    if k not in ('agg', 'anon'):
+        raise Bad('model_fill: %r' % (t,))
+    agg = aggs[t['name']] if k == 'agg' else t['agg']
+    if isinstance(init, ffi.CData):
+        n = ffi.sizeof(ffi.typeof(sub))
+        raw(ffi, ffi.addressof(sub), n)[:] = bytes(raw(ffi, ffi.addressof(init), n))
+        return
+    if isinstance(init, dict):
+        pairs = [(field_by_name(agg, name), v) for name, v in init.items()]
+    elif isinstance(init, (list, tuple)):
+        cf = ctor_fields(agg)
+        if cf is None:
+            raise Unmodelled('union-first-member-unnamed')
+        if len(init) > len(cf):
+            raise Bad('model: %d initializers for %d constructor fields' % (len(init), len(cf)))
+        pairs = list(zip(cf, init))
+    else:
+        raise Bad('model_fill: unexpected %r' % (init,))
+    for f, v in pairs:
+        ft = f['type']
+        if f['bits'] is not None or ft['k'] in LEAF_KINDS:
+            setattr(sub, f['name'], v)
+        elif is_flexfield(f):
+            base = ffi.cast('char *', ffi.addressof(sub)) + ffi.offsetof(ffi.typeof(sub), f['name'])
+            fa = ffi.cast(ffi.getctype(G.render_type(ft['of']), '*'), base)
+            model_array(ffi, fa, ft['of'], v, aggs)
+        else:
+            model_fill(ffi, getattr(sub, f['name']), ft, v, aggs)
+
+
+def model_array(ffi, sub, of, init, aggs, n=None):
+    """sub: array cdata or pointer to the first item; n: declared length (None:
+    open-ended, the allocation was sized from the initializer).  A bytes / str
+    initializer shorter than the array carries its terminating zero item (it
+    only shows when a dict initializer also sets an overlapping union member)"""
+    if isinstance(init, (list, tuple)):
+        for i, v in enumerate(init):
+            if of['k'] in LEAF_KINDS:
+                sub[i] = v
+            else:
+                model_fill(ffi, sub[i], of, v, aggs)
+    elif isinstance(init, bytes):
+        if of['k'] != 'prim' or of['name'] not in BYTE_ITEMS:
+            raise Bad('model: bytes for %r' % (of,))
+        if n is None or len(init) < n:
+            init = init + b'\0'
+        if init:
+            raw(ffi, sub, len(init))[:] = init
+    elif isinstance(init, str):
+        enc = init.encode(WIDE[of['name']], 'surrogatepass')
+        if n is None or units(of['name'], init) < n:
+            enc += b'\0' * (2 if of['name'] == 'char16_t' else 4)
+        if enc:
+            raw(ffi, sub, len(enc))[:] = enc
+    elif isinstance(init, ffi.CData):
+        b = bytes(ffi.buffer(init))
+        if b:
+            raw(ffi, sub, len(b))[:] = b
+    elif isinstance(init, (int, IndexLen)):
+        pass                              # a length only: nothing is written
+    else:
+        raise Bad('model_array: unexpected %r' % (init,))
+
+
+def run_model(ffi, ctype, size, t, init, aggs):
+    """-> ('ok', bytes) | ('unmodelled', why) | ('exc', type, text)"""
+    mem = bytearray(size)
+    try:
+        tgt = ffi.from_buffer(ctype, mem)
+        if t['k'] == 'array':
+            model_array(ffi, tgt, t['of'], init, aggs, t['n'])
+        else:
+            model_fill(ffi, tgt[0], t, init, aggs)
+        del tgt
+        return ('ok', bytes(mem))
+    except Unmodelled as e:
+        return ('unmodelled', str(e))
+    except Bad:
+        raise
+    except Exception as e:
+        return ('exc', type(e).__name__, str(e)[:120])
+
+
+def judge_model(rep, suffix, A, M, what, seed):
+    """A: run_path result with bytes; M: run_model result"""
+    if M[0] == 'unmodelled':
+        rep.stat('model_unmodelled')
+        return
+    if M[0] == 'exc':
+        rep.stat('model_raised')
+        return
+    rep.stat('model_compared')
+    if A[0] != 'ok':
+        rep.bad('valid-initializer-rejected' + suffix, '%s: ffi.new raised %r, leaf-wise assignment '
+                'of the same initializer into zero memory succeeds' % (what, A[1:]), seed)
+    elif A[1] != M[1]:
+        rep.bad('new-vs-leafwise' + suffix, '%s: new -> %s, leaf-wise into zero memory -> %s' %
+                (what, A[1].hex(), M[1].hex()), seed)
 
 
 def run_path(fn):
@@ -194,6 +392,91 @@ def irepr(x):
     return r if len(r) < 300 else r[:300] + '...'
 
 
+# ---------------------------------------------------------------------------
+# the other entry points that end in direct_newp
+
+ENTRY_KINDS = ['ctype-object', 'clevel-new', 'alloc-default', 'clevel-alloc-default',
+               'alloc-noclear', 'alloc-custom', 'clevel-alloc-custom',
+               'alloc-custom-noclear-zeroed']
+
+
+def alt_entry(ffi, rnd, rep, ctype, init, A, what, seed, noinit=False):
+    """Create the same object through another entry point; A is ffi.new's
+    result ('ok', bytes) / ('exc', ...).  noinit: call without initializer."""
+    import _cffi_backend
+    kind = rnd.choice(ENTRY_KINDS)
+    ct = ffi.typeof(ctype)
+    backing = []
+    garbage = kind != 'alloc-custom-noclear-zeroed'
+
+    def myalloc(n):
+        b = ffi.new('char[]', n)
+        if garbage and n:
+            ffi.buffer(b)[:] = b'\xa5' * n
+        backing.append((n, b))
+        return b
+    freed = []
+
+    def myfree(b):
+        freed.append(1)
+    cf = _cffi_backend.FFI()
+    if kind == 'ctype-object':
+        fn = ffi.new
+    elif kind == 'clevel-new':
+        fn = cf.new
+    elif kind == 'alloc-default':
+        fn = ffi.new_allocator()
+    elif kind == 'clevel-alloc-default':
+        fn = cf.new_allocator(should_clear_after_alloc=True)
+    elif kind == 'alloc-noclear':
+        fn = ffi.new_allocator(should_clear_after_alloc=False)
+    elif kind == 'alloc-custom':
+        fn = ffi.new_allocator(myalloc, myfree)
+    elif kind == 'clevel-alloc-custom':
+        fn = cf.new_allocator(alloc=myalloc, free=myfree, should_clear_after_alloc=True)
+    else:
+        fn = ffi.new_allocator(myalloc, myfree, should_clear_after_alloc=False)
+    if not kind.startswith('clevel') and isinstance(ctype, str) and rnd.random() < 0.5:
+        ct = ctype                      # the Python-level wrappers also take the type as text
+        rep.stat('entry_type_as_text')
+    R = run_path((lambda: fn(ct)) if noinit else (lambda: fn(ct, init)))
+    rep.stat('entry_' + kind)
+    if A[0] != 'ok':
+        if R[0] == 'ok' or R[1] != A[1]:
+            rep.bad('entry-point-differs:' + kind, '%s: ffi.new -> %r, %s -> %r' %
+                    (what, A[:2], kind, R[:2]), seed)
+        return
+    if R[0] != 'ok':
+        rep.bad('entry-point-differs:' + kind, '%s: ffi.new succeeds, %s raised %r' %
+                (what, kind, R[1:]), seed)
+        return
+    obj = R[1]
+    if backing:
+        n, b = backing[-1]
+        got = bytes(ffi.buffer(b))
+        if n != len(A[1]):
+            rep.bad('entry-point-allocation-size:' + kind, '%s: alloc() was asked for %d bytes, '
+                    'ffi.new allocates %d' % (what, n, len(A[1])), seed)
+            return
+    else:
+        got = bytes(ffi.buffer(obj))
+        if len(got) != len(A[1]):
+            rep.bad('entry-point-allocation-size:' + kind, '%s: %d bytes, ffi.new allocates %d' %
+                    (what, len(got), len(A[1])), seed)
+            return
+    if kind == 'alloc-noclear':
+        return                          # content outside the initializer is unspecified
+    if got != A[1]:
+        rep.bad('entry-point-differs:' + kind, '%s: ffi.new -> %s, %s -> %s' %
+                (what, A[1].hex(), kind, got.hex()), seed)
+    del obj, R
+
+
+ALT_RATE = 0.4
+
+
+# ---------------------------------------------------------------------------
+
 def child_case(st, case):
     import random
     from cffi import FFI
@@ -201,8 +484,19 @@ def child_case(st, case):
     for seed in case['seeds']:
         rnd = random.Random(seed)
         ffi = FFI()
+        if case.get('flex_overflow'):
+            flex_overflow_probe(ffi, rnd, rep)
+            continue
+        if case.get('flex_cdata'):
+            flex_cdata_probe(rnd, rep, seed)
+            continue
         g = G.Gen(rnd, prefix='t', complex_ok=True, longdouble_ok=False)
         top = g.toplevel(allow_packed=False)
+        wrappers = []
+        if top['flex']:
+            vary_flex_item(rnd, g, top)
+            if rnd.random() < 0.4:
+                wrappers = wrap_flex(rnd, g, top)
         aggs = {a['name']: a for a in g.decls}
         text = '\n'.join(G.render_decl_c(a) for a in g.decls)
         try:
@@ -212,19 +506,59 @@ def child_case(st, case):
             continue
         tag = '%s %s' % (top['kind'], top['name'])
         T = {'k': 'agg', 'name': top['name'], 'kind': top['kind']}
-        if case.get('flex_overflow'):
-            flex_overflow_probe(ffi, rnd, rep)
-            continue
         try:
             if top['flex']:
-                do_flex(ffi, rnd, rep, top, tag, T, aggs, text, seed)
+                if rnd.random() < 0.15:
+                    do_flex_invalid(ffi, rnd, rep, top, wrappers, aggs, text, seed)
+                else:
+                    do_flex(ffi, rnd, rep, top, wrappers, aggs, text, seed)
             else:
                 mode = rnd.choice(['single', 'single', 'dictmode', 'array', 'invalid', 'empty',
-                                   'primarray', 'openarray'])
+                                   'primarray', 'openarray', 'primptr', 'openprim'])
                 do_fixed(ffi, rnd, rep, top, tag, T, aggs, text, seed, mode)
         except Bad as e:
             rep.bad('harness-model', '%s :: %s' % (e, text[:300]), seed)
     return rep.result()
+
+
+def vary_flex_item(rnd, g, top):
+    """the generator only makes flexible arrays of primitives: sometimes make
+    the items pointers, fixed arrays or (non-flexible) aggregates"""
+    r = rnd.random()
+    flex = top['fields'][-1]
+    named = [d for d in g.decls if d is not top and not d.get('flex')]
+    if r < 0.2 and named:
+        d = rnd.choice(named)
+        flex['type']['of'] = {'k': 'agg', 'name': d['name'], 'kind': d['kind']}
+    elif r < 0.08:
+        flex['type']['of'] = {'k': 'ptr', 'to': g.prim()}
+    elif r < 0.2:
+        flex['type']['of'] = {'k': 'array', 'of': g.prim(), 'n': rnd.choice([1, 2, 3])}
+    elif r < 0.45:
+        flex['type']['of'] = {'k': 'prim', 'name': rnd.choice(
+            ['char', 'unsigned char', '_Bool', 'wchar_t', 'char16_t', 'char32_t'])}
+
+
+def wrap_flex(rnd, g, top):
+    """1-2 enclosing structs (last member) or unions (first or last member)
+    that contain the variable-sized struct; w['vin'] names that member"""
+    out = []
+    inner = top
+    for lv in range(rnd.choice([1, 1, 2])):
+        pre = [{'name': 'k%d_%d' % (lv, i), 'bits': None,
+                'type': {'k': 'prim', 'name': rnd.choice(['char', 'short', 'int', 'long long',
+                                                          'double'])}}
+               for i in range(rnd.randint(0, 2))]
+        vin = {'name': 'vin%d' % lv, 'bits': None,
+               'type': {'k': 'agg', 'name': inner['name'], 'kind': inner['kind']}}
+        kind = 'union' if rnd.random() < 0.25 else 'struct'
+        fields = [vin] + pre if kind == 'union' and rnd.random() < 0.5 else pre + [vin]
+        outer = {'kind': kind, 'name': 'w%d' % lv, 'packed': None, 'flex': False,
+                 'varwrap': True, 'vin': vin['name'], 'fields': fields}
+        g.decls.append(outer)
+        out.append(outer)
+        inner = outer
+    return out
 
 
 def do_fixed(ffi, rnd, rep, top, tag, T, aggs, text, seed, mode):
@@ -236,13 +570,37 @@ def do_fixed(ffi, rnd, rep, top, tag, T, aggs, text, seed, mode):
         rep.stat('mode_empty')
         if bytes(ffi.buffer(p)) != b'\0' * size or bytes(ffi.buffer(a)) != b'\0' * (3 * size):
             rep.bad('not-zero-filled', 'ffi.new(%r) without initializer is not all zero' % tag, seed)
+        if rnd.random() < ALT_RATE:
+            alt_entry(ffi, rnd, rep, tag + ' *', None, ('ok', b'\0' * size),
+                      '%s without initializer :: %s' % (tag, text[:300]), seed, noinit=True)
         return
+    if mode == 'primptr':
+        return do_primptr(ffi, rnd, rep, aggs, seed)
+    if mode == 'openprim':
+        return do_openprim(ffi, rnd, rep, aggs, seed)
     if mode == 'primarray':
-        name = rnd.choice(['int', 'short', 'unsigned char', 'double', 'char', 'long long'])
+        name = rnd.choice(['int', 'short', 'unsigned char', 'double', 'char', 'long long',
+                           'signed char', '_Bool', 'wchar_t', 'char16_t', 'char32_t', 'uint8_t',
+                           'float _Complex', 'void *'])
         n = rnd.randint(0, 9)
-        t = {'k': 'array', 'of': {'k': 'prim', 'name': name}, 'n': n}
-        init = make_init(ffi, rnd, t, aggs)
+        of = {'k': 'ptr', 'to': {'k': 'prim', 'name': 'void'}} if name == 'void *' else \
+            {'k': 'prim', 'name': name}
+        t = {'k': 'array', 'of': of, 'n': n}
+        isz = ffi.sizeof(name)
         ct = '%s[%d]' % (name, n)
+        invalid = rnd.random() < 0.12
+        if invalid:
+            # one item / character too many; _Bool: a byte that is not 0 / 1
+            if name == '_Bool' and n and rnd.random() < 0.5:
+                init = b'\1' * (n - 1) + b'\2'
+            elif name in BYTE_ITEMS and rnd.random() < 0.5:
+                init = byte_text(rnd, name, n + 1)
+            elif name in WIDE and rnd.random() < 0.5:
+                init = 'x' * (n + 1)
+            else:
+                init = [make_init(ffi, rnd, of, aggs) for _ in range(n + 1)]
+        else:
+            init = make_init(ffi, rnd, t, aggs)
         A = run_path(lambda: bytes(ffi.buffer(ffi.new(ct, init))))
 
         def pathB():
@@ -250,17 +608,22 @@ def do_fixed(ffi, rnd, rep, top, tag, T, aggs, text, seed, mode):
             pp[0] = init
             return bytes(ffi.buffer(pp))
         B = run_path(pathB)
-        rep.case((ct, irepr(init)), nontrivial=len(init) >= 2, sample={'type': ct, 'init': irepr(init)})
+        what = '%s init %s' % (ct, irepr(init))
+        rep.case((ct, irepr(init)), nontrivial=not isinstance(init, ffi.CData) and len(init) >= 2,
+                 sample={'type': ct, 'init': irepr(init)})
         rep.stat('mode_primarray')
+        rep.stat('primarray_init_' + ('toolong' if invalid else
+                                      'cdata' if isinstance(init, ffi.CData) else
+                                      type(init).__name__))
         if A != B:
-            rep.bad('new-vs-assign:array', '%s init %s: new -> %r, assignment -> %r' %
-                    (ct, irepr(init), A, B), seed)
-        if A[0] == 'ok':
-            isz = ffi.sizeof(name)
-            m = len(init)
-            if A[1][m * isz + (isz if isinstance(init, bytes) and m < n else 0):] .strip(b'\0'):
-                rep.bad('not-zero-filled', '%s init %s: tail not zero: %s' %
-                        (ct, irepr(init), A[1].hex()), seed)
+            rep.bad('new-vs-assign:array', '%s: new -> %r, assignment -> %r' % (what, A, B), seed)
+        if invalid:
+            if A[0] == 'ok':
+                rep.bad('invalid-array-initializer-accepted', '%s: accepted' % what, seed)
+            return
+        judge_model(rep, ':array', A, run_model(ffi, ct, n * isz, t, init, aggs), what, seed)
+        if rnd.random() < ALT_RATE:
+            alt_entry(ffi, rnd, rep, ct, init, A, what, seed)
         return
     if mode == 'invalid':
         fields = flat_fields(top)
@@ -286,6 +649,9 @@ def do_fixed(ffi, rnd, rep, top, tag, T, aggs, text, seed, mode):
             if not (A[0] == 'ok' and B[0] == 'ok' and A == B and kind == 'toomany'):
                 rep.bad('invalid-initializer-differs', '%s invalid init %s: new -> %r, assignment '
                         '-> %r :: %s' % (tag, irepr(init), A[:2], B[:2], text[:300]), seed)
+        if rnd.random() < ALT_RATE:
+            alt_entry(ffi, rnd, rep, tag + ' *', init, A,
+                      '%s invalid init %s :: %s' % (tag, irepr(init), text[:300]), seed)
         return
     if mode == 'openarray':
         # open-ended array created from an initializer: items that the
@@ -294,15 +660,21 @@ def do_fixed(ffi, rnd, rep, top, tag, T, aggs, text, seed, mode):
         m = rnd.randint(1, 4)
         if kind == 'agg':
             ct_open = ffi.getctype(ffi.typeof(tag), '[]')
-            inits = [make_agg_init(ffi, rnd, top, aggs, 0, True) for _ in range(m)]
+            inits = [make_agg_init(ffi, rnd, top, aggs, 0, rnd.random() < 0.5)
+                     for _ in range(m)]
             isz = size
+            of = T
         elif kind == 'int3':
             ct_open, isz = 'int[][3]', 12
             inits = [[rnd.randint(1, 9) for _ in range(rnd.randint(0, 3))] for _ in range(m)]
+            of = {'k': 'array', 'of': {'k': 'prim', 'name': 'int'}, 'n': 3}
         else:
             ct_open, isz = 'char[][8]', 8
-            inits = [bytes(rnd.randrange(1, 256) for _ in range(rnd.randint(0, 7)))
+            inits = [bytes(rnd.randrange(1, 256) for _ in range(rnd.randint(0, 8)))
                      for _ in range(m)]
+            of = {'k': 'array', 'of': {'k': 'prim', 'name': 'char'}, 'n': 8}
+        if rnd.random() < 0.3:
+            inits = tuple(inits)
         A = run_path(lambda: bytes(ffi.buffer(ffi.new(ct_open, inits))))
 
         def pathB():
@@ -311,21 +683,21 @@ def do_fixed(ffi, rnd, rep, top, tag, T, aggs, text, seed, mode):
                 arr[i] = it
             return bytes(ffi.buffer(arr))
         B = run_path(pathB)
+        what = '%s init %s :: %s' % (ct_open, irepr(inits), text[:300] if kind == 'agg' else '')
         rep.case((text if kind == 'agg' else kind, 'openarray', irepr(inits)),
                  sample={'type': str(ct_open), 'inits': irepr(inits)})
         rep.stat('mode_openarray_' + kind)
         if A != B:
-            rep.bad('new-vs-assign:open-array', '%s init %s: new -> %r, length-only new + item '
-                    'assignment -> %r :: %s' % (ct_open, irepr(inits), A, B,
-                                                text[:300] if kind == 'agg' else ''), seed)
-        if A[0] == 'ok' and kind == 'agg':
-            mem = bytearray(isz * m)
-            tgt = ffi.from_buffer(ffi.getctype(ffi.typeof(tag), '[]'), mem)
-            for i, it in enumerate(inits):
-                leaf_assign(ffi, tgt[i], T, it, aggs)
-            if bytes(mem) != A[1]:
-                rep.bad('new-vs-leafwise:open-array', '%s init %s: new -> %s, leaf-wise into zero '
-                        'memory -> %s' % (ct_open, irepr(inits), A[1].hex(), bytes(mem).hex()), seed)
+            rep.bad('new-vs-assign:open-array', '%s: new -> %r, length-only new + item '
+                    'assignment -> %r' % (what, A, B), seed)
+        if A[0] == 'ok' and len(A[1]) != m * isz:
+            rep.bad('open-array-allocation-size', '%s: %d bytes for %d items of %d bytes' %
+                    (what, len(A[1]), m, isz), seed)
+        judge_model(rep, ':open-array', A,
+                    run_model(ffi, ct_open, isz * m, {'k': 'array', 'of': of, 'n': None}, inits,
+                              aggs), what, seed)
+        if rnd.random() < ALT_RATE:
+            alt_entry(ffi, rnd, rep, ct_open, inits, A, what, seed)
         return
     if mode == 'array':
         n = rnd.randint(1, 4)
@@ -345,15 +717,20 @@ def do_fixed(ffi, rnd, rep, top, tag, T, aggs, text, seed, mode):
                 arr[i] = it
             return bytes(ffi.buffer(arr))
         B, B2 = run_path(pathB), run_path(pathB2)
+        what = '%s init %s :: %s' % (ct, irepr(inits), text[:300])
         rep.case((text, 'array', n, irepr(inits)), sample={'decl': text[:200], 'n': n,
                                                            'inits': irepr(inits)})
         rep.stat('mode_array')
         if A != B or (A[0] == 'ok' and B2 != A):
-            rep.bad('new-vs-assign:array-of-aggregates', '%s init %s: new -> %r, ptr-to-array '
-                    'assignment -> %r, item assignment -> %r :: %s' %
-                    (ct, irepr(inits), A, B, B2, text[:300]), seed)
+            rep.bad('new-vs-assign:array-of-aggregates', '%s: new -> %r, ptr-to-array '
+                    'assignment -> %r, item assignment -> %r' % (what, A, B, B2), seed)
         if A[0] == 'ok' and A[1][m * size:].strip(b'\0'):
             rep.bad('not-zero-filled', '%s: elements after the initializer are not zero' % ct, seed)
+        judge_model(rep, ':array-of-aggregates', A,
+                    run_model(ffi, ct, n * size, {'k': 'array', 'of': T, 'n': n}, inits, aggs),
+                    what, seed)
+        if rnd.random() < ALT_RATE:
+            alt_entry(ffi, rnd, rep, ct, inits, A, what, seed)
         return
     dictmode = mode == 'dictmode'
     init = make_agg_init(ffi, rnd, top, aggs, 0, dictmode)
@@ -365,82 +742,369 @@ def do_fixed(ffi, rnd, rep, top, tag, T, aggs, text, seed, mode):
         return bytes(ffi.buffer(p))
     B = run_path(pathB)
     nleaves = len(init) if isinstance(init, (list, tuple, dict)) else 1
+    what = '%s init %s :: %s' % (tag, irepr(init), text[:400])
     rep.case((text, irepr(init)), nontrivial=nleaves >= 2,
              sample={'decl': text[:300], 'init': irepr(init)})
     rep.stat('mode_' + mode)
     rep.stat('init_' + type(init).__name__)
+    if isinstance(init, (list, tuple)) and any(f['type']['k'] == 'anon' for f in top['fields']):
+        rep.stat('init_positional_across_anonymous')
     if A != B:
-        rep.bad('new-vs-assign', '%s init %s: new -> %r, assignment -> %r :: %s' %
-                (tag, irepr(init), A, B, text[:400]), seed)
-    if dictmode and A[0] == 'ok':
-        mem = bytearray(size)
-        tgt = ffi.from_buffer(tag + ' *', mem)
-        leaf_assign(ffi, tgt, T, init, aggs)
+        rep.bad('new-vs-assign', '%s: new -> %r, assignment -> %r' % (what, A, B), seed)
+    M = run_model(ffi, tag + ' *', size, T, init, aggs)
+    if M[0] == 'ok':
         rep.stat('leafwise_compared')
-        if bytes(mem) != A[1]:
-            rep.bad('new-vs-leafwise', '%s dict init %s: new -> %s, leaf-wise assignment into zero '
-                    'memory -> %s :: %s' % (tag, irepr(init), A[1].hex(), bytes(mem).hex(),
-                                            text[:400]), seed)
+    judge_model(rep, '', A, M, what, seed)
     if A[0] == 'ok' and isinstance(init, (list, tuple, dict)) and len(init) == 0:
         if A[1].strip(b'\0'):
             rep.bad('not-zero-filled', '%s with empty initializer is not all zero' % tag, seed)
+    if rnd.random() < ALT_RATE:
+        alt_entry(ffi, rnd, rep, tag + ' *', init, A, what, seed)
 
 
-def do_flex(ffi, rnd, rep, top, tag, T, aggs, text, seed):
-    flex = top['fields'][-1]
-    item = G.render_type(flex['type']['of'])
-    isz = ffi.sizeof(item)
-    off = ffi.offsetof(tag, flex['name'])
-    base = ffi.sizeof(tag)
-    k = rnd.choice([0, 1, 2, 3, 7, 20])
-    uselen = rnd.random() < 0.4
-    head = make_agg_init(ffi, rnd, top, aggs, 0, True)
-    if not isinstance(head, dict):
-        head = {}
-    if uselen:
-        arr = k
+PTR_ITEMS = ['void *', 'int *', 'char * *', 'int(*)(int)', 'double *']
+
+
+def do_primptr(ffi, rnd, rep, aggs, seed):
+    """ffi.new('T *', value) for primitive and pointer T"""
+    name = rnd.choice(G.PRIMS[:13] + G.PRIMS[14:] + PTR_ITEMS)
+    if name in PTR_ITEMS:
+        v = rnd.choice([ffi.NULL, ffi.cast(name, rnd.getrandbits(40))])
     else:
-        arr = [make_init(ffi, rnd, flex['type']['of'], aggs) for _ in range(k)]
-    init = dict(head)
-    init[flex['name']] = arr
-    A = run_path(lambda: ffi.new(tag + ' *', init))
-    rep.case((text, 'flex', irepr(init)), sample={'decl': text[:300], 'init': irepr(init)})
-    rep.stat('flex_length_init' if uselen else 'flex_items_init')
-    if A[0] != 'ok':
-        rep.bad('flex-new-raised', '%s init %s raised %r :: %s' % (tag, irepr(init), A[1:], text[:300]),
+        v = prim_value(ffi, rnd, name)
+    ct = ffi.getctype(name, '*')
+    size = ffi.sizeof(name)
+    noinit = rnd.random() < 0.2
+    if noinit:
+        A = run_path(lambda: bytes(ffi.buffer(ffi.new(ct))))
+        what = '%s without initializer' % ct
+        rep.case(('primptr', ct, None), nontrivial=False)
+        if A != ('ok', b'\0' * size):
+            rep.bad('not-zero-filled', '%s: %r' % (what, A), seed)
+    else:
+        A = run_path(lambda: bytes(ffi.buffer(ffi.new(ct, v))))
+
+        def pathB():
+            p = ffi.new(ct)
+            p[0] = v
+            return bytes(ffi.buffer(p))
+        B = run_path(pathB)
+        what = '%s init %s' % (ct, irepr(v))
+        rep.case(('primptr', ct, irepr(v)), sample={'type': ct, 'init': irepr(v)})
+        if A != B:
+            rep.bad('new-vs-assign:pointer-to-scalar', '%s: new -> %r, assignment -> %r' %
+                    (what, A, B), seed)
+        mem = bytearray(size)
+
+        def model():
+            ffi.from_buffer(ct, mem)[0] = v
+            return bytes(mem)
+        M = run_path(model)
+        judge_model(rep, ':pointer-to-scalar', A, M, what, seed)
+    rep.stat('mode_primptr')
+    rep.stat('primptr_noinit' if noinit else 'primptr_init')
+    if rnd.random() < ALT_RATE and A[0] == 'ok':
+        # (the allocation of a pointer to a character type holds one extra
+        # item: only the bytes are compared, see alt_entry_scalar)
+        alt_entry_scalar(ffi, rnd, rep, ct, v, A, what, seed, noinit)
+
+
+def alt_entry_scalar(ffi, rnd, rep, ct, v, A, what, seed, noinit):
+    import _cffi_backend
+    kind = rnd.choice(['ctype-object', 'clevel-new', 'alloc-default', 'clevel-alloc-default'])
+    cf = _cffi_backend.FFI()
+    fn = {'ctype-object': ffi.new, 'clevel-new': cf.new,
+          'alloc-default': ffi.new_allocator(),
+          'clevel-alloc-default': cf.new_allocator(should_clear_after_alloc=True)}[kind]
+    cto = ffi.typeof(ct)
+    R = run_path((lambda: bytes(ffi.buffer(fn(cto)))) if noinit else
+                 (lambda: bytes(ffi.buffer(fn(cto, v)))))
+    rep.stat('entry_' + kind)
+    if R != A:
+        rep.bad('entry-point-differs:' + kind, '%s: ffi.new -> %r, %s -> %r' % (what, A, kind, R),
                 seed)
+
+
+OPEN_ITEMS = ['int', 'short', 'unsigned char', 'double', 'char', 'long long', 'signed char',
+              '_Bool', 'wchar_t', 'char16_t', 'char32_t', 'uint8_t', 'unsigned int',
+              'double _Complex', 'void *']
+
+
+def do_openprim(ffi, rnd, rep, aggs, seed):
+    """ffi.new('T[]', length | list | tuple | bytes | str | object with __index__)"""
+    name = rnd.choice(OPEN_ITEMS)
+    of = {'k': 'ptr', 'to': {'k': 'prim', 'name': 'void'}} if name == 'void *' else \
+        {'k': 'prim', 'name': name}
+    isz = ffi.sizeof(name)
+    ct = name + '[]'
+    forms = ['len', 'len', 'list', 'list', 'tuple', 'indexlen', 'badlen']
+    if name in BYTE_ITEMS:
+        forms += ['bytes'] * 4
+    if name in WIDE:
+        forms += ['str'] * 6
+    form = rnd.choice(forms)
+    n = rnd.choice([0, 1, 2, 3, 5, 8, 17, 64])
+    rep.stat('mode_openprim')
+    rep.stat('openprim_' + form)
+    if form == 'badlen':
+        if isz >= 2 and rnd.random() < 0.5:
+            init, must = 1 << 62, True       # item size * length overflows ssize_t
+        else:
+            init, must = rnd.choice([-1, -(1 << 63), 1 << 64, 2.5, None]), False
+            if init is None:
+                init = object()
+        A = run_path(lambda: len(ffi.new(ct, init)))
+        rep.case(('openprim', ct, 'badlen', irepr(init) if must else type(init).__name__),
+                 nontrivial=False)
+        if A[0] == 'ok':
+            rep.bad('overflowing-length-accepted' if must else 'invalid-length-accepted',
+                    'ffi.new(%r, %s) returned an array of length %r' % (ct, irepr(init), A[1]), seed)
+        return
+    if form == 'len':
+        init, L = n, n
+    elif form == 'indexlen':
+        init, L = IndexLen(n), n
+    elif form in ('list', 'tuple'):
+        init = [make_init(ffi, rnd, of, aggs) for _ in range(n)]
+        if form == 'tuple':
+            init = tuple(init)
+        L = n
+    elif form == 'bytes':
+        init = byte_text(rnd, name, n)
+        L = n + 1
+    else:
+        init = wide_text(rnd, name, n)
+        L = units(name, init) + 1
+    what = '%s init %s' % (ct, irepr(init))
+    rep.case(('openprim', ct, irepr(init)), nontrivial=L >= 2, sample={'type': ct,
+                                                                       'init': irepr(init)})
+    P = run_path(lambda: ffi.new(ct, init))
+    if P[0] != 'ok':
+        rep.bad('valid-initializer-rejected:open-array', '%s raised %r' % (what, P[1:]), seed)
+        return
+    p = P[1]
+    if len(p) != L or ffi.sizeof(p) != L * isz or len(ffi.buffer(p)) != L * isz:
+        rep.bad('open-array-allocation-size', '%s: len %d, sizeof %d, buffer %d; expected %d items '
+                'of %d bytes' % (what, len(p), ffi.sizeof(p), len(ffi.buffer(p)), L, isz), seed)
+        return
+    A = ('ok', bytes(ffi.buffer(p)))
+    if form not in ('len', 'indexlen') and L > 0:
+        def pathB():
+            pp = ffi.new('%s(*)[%d]' % (name, L))
+            pp[0] = init
+            return bytes(ffi.buffer(pp))
+        B = run_path(pathB)
+        if A != B:
+            rep.bad('new-vs-assign:open-array', '%s: new -> %r, assignment to a %s[%d] -> %r' %
+                    (what, A, name, L, B), seed)
+    judge_model(rep, ':open-array', A,
+                run_model(ffi, ct, L * isz, {'k': 'array', 'of': of, 'n': None}, init, aggs),
+                what, seed)
+    if rnd.random() < ALT_RATE:
+        alt_entry(ffi, rnd, rep, ct, init, A, what, seed)
+
+
+# ---------------------------------------------------------------------------
+# flexible-array structs
+
+def flex_array_init(ffi, rnd, of, aggs):
+    """-> (form, initializer for the flexible member or None when absent,
+    number of items the allocation must hold)"""
+    forms = ['len', 'len', 'list', 'list', 'list', 'tuple', 'absent', 'indexlen']
+    name = of['name'] if of['k'] == 'prim' else None
+    if name in BYTE_ITEMS:
+        forms += ['bytes'] * 4
+    if name in WIDE:
+        forms += ['str'] * 4
+    form = rnd.choice(forms)
+    k = rnd.choice([0, 1, 2, 3, 7, 20])
+    if form == 'len':
+        return form, k, k
+    if form == 'indexlen':
+        return form, IndexLen(k), k
+    if form == 'absent':
+        return form, None, 0
+    if form == 'bytes':
+        return form, byte_text(rnd, name, k), k + 1
+    if form == 'str':
+        s = wide_text(rnd, name, k)
+        return form, s, units(name, s) + 1
+    items = [make_init(ffi, rnd, of, aggs) for _ in range(k)]
+    return form, (items if form == 'list' else tuple(items)), k
+
+
+def agg_init_with_last(ffi, rnd, agg, aggs, lastname, lastval, positional_ok=True):
+    """initializer of `agg` (dict or positional) in which member `lastname`
+    gets `lastval` (positional only when it is the last constructor field);
+    lastval None: the member is not mentioned"""
+    cf = ctor_fields(agg)
+    others = [f for f in flat_fields(agg) if f['name'] != lastname]
+    if positional_ok and cf is not None and cf and cf[-1]['name'] == lastname and \
+            rnd.random() < 0.45:
+        if lastval is None:
+            k = rnd.randint(0, len(cf) - 1)
+            vals = [field_value(ffi, rnd, f, aggs, 0, False) for f in cf[:k]]
+        else:
+            vals = [field_value(ffi, rnd, f, aggs, 0, False) for f in cf[:-1]] + [lastval]
+        return ('positional', vals if rnd.random() < 0.6 else tuple(vals))
+    if agg['kind'] == 'union':
+        pick = []
+    else:
+        pick = [f for f in others if rnd.random() < 0.6]
+    init = {f['name']: field_value(ffi, rnd, f, aggs, 0, rnd.random() < 0.5) for f in pick}
+    if lastval is not None:
+        if rnd.random() < 0.5:
+            init[lastname] = lastval
+        else:
+            init = dict([(lastname, lastval)] + list(init.items()))
+    return ('dict', init)
+
+
+def flex_geometry(ffi, top, wrappers):
+    flex = top['fields'][-1]
+    of = flex['type']['of']
+    tag = 'struct ' + top['name']
+    isz = ffi.sizeof(G.render_type(of))
+    off = ffi.offsetof(tag, flex['name'])
+
+    def want(k):
+        size = max(ffi.sizeof(tag), off + k * isz)
+        for w in wrappers:
+            wt = '%s %s' % (w['kind'], w['name'])
+            size = max(ffi.sizeof(wt), ffi.offsetof(wt, w['vin']) + size)
+        return size
+    return flex, of, want
+
+
+def do_flex(ffi, rnd, rep, top, wrappers, aggs, text, seed):
+    flex, of, want_of = flex_geometry(ffi, top, wrappers)
+    outer = wrappers[-1] if wrappers else top
+    otag = '%s %s' % (outer['kind'], outer['name'])
+    OT = {'k': 'agg', 'name': outer['name'], 'kind': outer['kind']}
+    form, arr, k = flex_array_init(ffi, rnd, of, aggs)
+    shape, init = agg_init_with_last(ffi, rnd, top, aggs, flex['name'], arr)
+    shapes = [shape]
+    sizing = None if arr is None else {flex['name']: k}
+    cdata_inner = False
+    for w in wrappers:
+        last = w['vin']
+        if not cdata_inner and rnd.random() < 0.12:
+            # the variable-sized inner struct given as a cdata: only its fixed
+            # part is copied, the allocation is not enlarged
+            inner_tag = G.render_type(field_by_name(w, last)['type'])
+            inner_init = init
+            I = run_path(lambda: ffi.new(inner_tag + ' *', inner_init)[0])
+            if I[0] != 'ok':
+                rep.bad('flex-new-raised', '%s init %s raised %r :: %s' %
+                        (inner_tag, irepr(init), I[1:], text[:300]), seed)
+                return
+            init = I[1]
+            cdata_inner = True
+        shape, init = agg_init_with_last(ffi, rnd, w, aggs, last, init)
+        shapes.append(shape)
+        sizing = None if sizing is None else {last: sizing}
+    if cdata_inner:
+        k, sizing = 0, None
+    want = want_of(k)
+    what = '%s init %s :: %s' % (otag, irepr(init), text[:300])
+    A = run_path(lambda: ffi.new(otag + ' *', init))
+    rep.case((text, 'flex', irepr(init)), sample={'decl': text[:300], 'init': irepr(init)})
+    rep.stat('flex_length_init' if form in ('len', 'indexlen') else 'flex_items_init')
+    rep.stat('flex_form_' + form)
+    rep.stat('flex_item_' + of['k'])
+    rep.stat('flex_nesting_%d' % len(wrappers))
+    if any(w['kind'] == 'union' for w in wrappers):
+        rep.stat('flex_nested_in_union')
+    for s in set(shapes):
+        rep.stat('flex_shape_' + s)
+    if cdata_inner:
+        rep.stat('flex_inner_as_cdata')
+    if A[0] != 'ok':
+        rep.bad('flex-new-raised', '%s raised %r' % (what, A[1:]), seed)
         return
     p = A[1]
-    want = max(base, off + k * isz)
     if ffi.sizeof(p[0]) != want or len(ffi.buffer(p)) != want:
         rep.bad('flex-allocation-size', '%s with %d flexible items: sizeof(p[0])=%d, '
-                'len(buffer)=%d, expected %d :: %s' % (tag, k, ffi.sizeof(p[0]),
-                                                       len(ffi.buffer(p)), want, text[:300]), seed)
+                'len(buffer)=%d, expected %d' % (what, k, ffi.sizeof(p[0]),
+                                                 len(ffi.buffer(p)), want), seed)
+        return
     # the member's length is derived from the allocated size, so tail padding
     # of the struct can make it larger than k; it must hold at least k items
-    if len(getattr(p, flex['name'])) < k:
+    if not wrappers and len(getattr(p, flex['name'])) < k:
         rep.bad('flex-length', 'flexible member has length %d, initializer had %d items' %
                 (len(getattr(p, flex['name'])), k), seed)
+    Ab = ('ok', bytes(ffi.buffer(p)))
     # path B: target allocated with a length-only initializer, then assigned
-    q = ffi.new(tag + ' *', {flex['name']: k})
+    q = ffi.new(otag + ' *', sizing) if sizing is not None else ffi.new(otag + ' *')
+    if len(ffi.buffer(q)) != want:
+        rep.bad('flex-allocation-size', '%s: length-only initializer %r allocates %d, expected %d'
+                % (otag, sizing, len(ffi.buffer(q)), want), seed)
+        return
+    if bytes(ffi.buffer(q)).strip(b'\0'):
+        rep.bad('not-zero-filled', '%s with length-only initializer %r is not all zero' %
+                (otag, sizing), seed)
     B = run_path(lambda: q.__setitem__(0, init))
     if B[0] != 'ok':
-        rep.bad('flex-assign-raised', '%s: p[0] = %s raised %r' % (tag, irepr(init), B[1:]), seed)
-    elif bytes(ffi.buffer(q)) != bytes(ffi.buffer(p)):
-        rep.bad('new-vs-assign:flex', '%s init %s: new -> %s, assignment -> %s :: %s' %
-                (tag, irepr(init), bytes(ffi.buffer(p)).hex(), bytes(ffi.buffer(q)).hex(),
-                 text[:300]), seed)
+        rep.bad('flex-assign-raised', '%s: p[0] = ... raised %r' % (what, B[1:]), seed)
+    elif bytes(ffi.buffer(q)) != Ab[1]:
+        rep.bad('new-vs-assign:flex', '%s: new -> %s, assignment -> %s' %
+                (what, Ab[1].hex(), bytes(ffi.buffer(q)).hex()), seed)
     # path C
-    mem = bytearray(want)
-    tgt = ffi.from_buffer(tag + ' *', mem)
-    leaf_assign(ffi, tgt, T, head, aggs)
-    if not uselen:
-        fa = ffi.cast(ffi.getctype(ffi.typeof(item), '*'), ffi.cast('char *', tgt) + off)
-        for i, v in enumerate(arr):
-            fa[i] = v
-    if bytes(mem) != bytes(ffi.buffer(p)):
-        rep.bad('new-vs-leafwise:flex', '%s init %s: new -> %s, leaf-wise -> %s :: %s' %
-                (tag, irepr(init), bytes(ffi.buffer(p)).hex(), bytes(mem).hex(), text[:300]), seed)
+    judge_model(rep, ':flex', Ab, run_model(ffi, otag + ' *', want, OT, init, aggs), what, seed)
+    if rnd.random() < ALT_RATE:
+        alt_entry(ffi, rnd, rep, otag + ' *', init, Ab, what, seed)
+
+
+def do_flex_invalid(ffi, rnd, rep, top, wrappers, aggs, text, seed):
+    """lengths / items the flexible member cannot take"""
+    flex, of, want_of = flex_geometry(ffi, top, wrappers)
+    outer = wrappers[-1] if wrappers else top
+    otag = '%s %s' % (outer['kind'], outer['name'])
+    kind = rnd.choice(['overflow', 'overflow', 'negative', 'huge', 'notalength', 'baditem',
+                       'unknownkey'])
+    fit = 2
+    if kind == 'overflow':
+        arr = (1 << 63) - 1
+    elif kind == 'negative':
+        arr = rnd.choice([-1, -(1 << 63)])
+    elif kind == 'huge':
+        arr = rnd.choice([1 << 63, 1 << 64])
+    elif kind == 'notalength':
+        arr = rnd.choice([2.5, object(), {}])
+    elif kind == 'baditem':
+        arr = [object(), object()]
+    else:
+        arr = 2
+    init = {flex['name']: arr}
+    if kind == 'unknownkey':
+        init['no_such_field_zz'] = 1
+    sizing = {flex['name']: fit}
+    for w in wrappers:
+        last = w['vin']
+        cf = ctor_fields(w)
+        init = {last: init} if rnd.random() < 0.6 or cf[-1]['name'] != last else \
+            [field_value(ffi, rnd, f, aggs, 0, False) for f in cf[:-1]] + [init]
+        sizing = {last: sizing}
+    what = '%s invalid init %s :: %s' % (otag, irepr(init), text[:300])
+    A = run_path(lambda: len(ffi.buffer(ffi.new(otag + ' *', init))))
+
+    def pathB():
+        q = ffi.new(otag + ' *', sizing)
+        q[0] = init
+        return len(ffi.buffer(q))
+    B = run_path(pathB)
+    rep.case((text, 'flex-invalid', kind, len(wrappers)),
+             sample={'decl': text[:200], 'invalid_init': irepr(init)})
+    rep.stat('flex_invalid_' + kind)
+    if A[0] == 'ok':
+        rep.bad('overflowing-length-accepted' if kind == 'overflow' else
+                'invalid-initializer-differs', '%s: ffi.new returned an object of %r bytes, '
+                'assignment -> %r' % (what, A[1], B[:2]), seed)
+    elif kind != 'overflow' and (B[0] == 'ok' or B[1] != A[1]):
+        rep.bad('invalid-initializer-differs', '%s: new -> %r, assignment -> %r' %
+                (what, A[:2], B[:2]), seed)
+    if rnd.random() < ALT_RATE and A[0] != 'ok':
+        alt_entry(ffi, rnd, rep, otag + ' *', init, A, what, seed)
 
 
 def flex_overflow_probe(ffi, rnd, rep):
@@ -459,6 +1123,28 @@ def flex_overflow_probe(ffi, rnd, rep):
         rep.stat('flex_overflow_probe_rejected')
 
 
+def flex_cdata_probe(rnd, rep, seed):
+    """a cdata struct as the initializer of a struct with a flexible array:
+    assignment copies the fixed part; ffi.new must do the same"""
+    f2 = FFI2()
+    src = f2.new('struct fxp *', {'n': 7, 'a': 3})
+    A = run_path(lambda: bytes(f2.buffer(f2.new('struct fxp *', src[0]))))
+
+    def pathB():
+        q = f2.new('struct fxp *')
+        q[0] = src[0]
+        return bytes(f2.buffer(q))
+    B = run_path(pathB)
+    rep.case(('flex_cdata_probe', rnd.random()),
+             sample={'probe': "struct fxp {int n; short a[];}; src = new(.., {'n': 7, 'a': 3}); "
+                              "new('struct fxp *', src[0])"})
+    rep.stat('flex_cdata_probe')
+    if A != B:
+        rep.bad('flex-new-rejects-cdata-struct', "struct fxp { int n; short a[]; }; src = "
+                "ffi.new('struct fxp *', {'n': 7, 'a': 3}); ffi.new('struct fxp *', src[0]) -> %r, "
+                "q = ffi.new('struct fxp *'); q[0] = src[0] -> %r" % (A, B), seed)
+
+
 def FFI2():
     from cffi import FFI
     f = FFI()
@@ -467,4 +1153,10 @@ def FFI2():
 
 
 def judge(ctx, setup, case, obs):
-    core.absorb(ctx, case, obs, lambda seed: {'seeds': [seed]})
+    def replay_of(seed):
+        rc = {'seeds': [seed]}
+        for k in ('flex_overflow', 'flex_cdata'):
+            if case.get(k):
+                rc[k] = True
+        return rc
+    core.absorb(ctx, case, obs, replay_of)
